@@ -287,7 +287,7 @@ class ChainGen:
             outs.append((0, b'\x00\x6a' + bytes(big)))
         return Tx(ins, outs, locktime=self.nonce)
 
-    def make_block(self, parent, rng, ntx, *, include=(), collide=None, big_at=None, big=0):
+    def make_block(self, parent, rng, ntx, *, include=(), collide=None, big_at=None, big=0, burn=False):
         """A block on `parent` with a coinbase, the still-valid transactions of `include`
         (mempool txs / txs re-mined from an abandoned branch) and up to `ntx` fresh ones."""
         tree = self.tree
@@ -318,6 +318,10 @@ class ChainGen:
                 if cb is not None:
                     self.used_collisions += 1
                     break
+        if burn:
+            # a block that touches no script hash at all: its coinbase pays a single OP_FALSE OP_RETURN output
+            cb = Tx([(ZERO32, 0xffffffff, struct.pack('<IQ', height, self.nonce), 0xffffffff)],
+                    [(5_000_000_000, b'\x00\x6a\x02hi')], locktime=self.nonce)
         if cb is None:
             cb = Tx([(ZERO32, 0xffffffff, struct.pack('<IQ', height, self.nonce), 0xffffffff)],
                     self._outs(rng, 5_000_000_000, rng.randint(1, 3)), locktime=self.nonce)
